@@ -87,6 +87,22 @@ def handle (ws : List String) : String :=
          | none => "ok none"
          | some coll => "ok " ++ " ".intercalate (coll.map fun (t, side) =>
              s!"{t.kind.toString}:{side}:" ++ ",".intercalate (t.ps.map fun v => toString v.toBits)))
+  | "fillmodel" :: items =>
+      -- items: id:univ:fill(-|n):mathex:rhohex in deck order -> leaves of every filled level-0 cell
+      (let cells := items.filterMap fun it =>
+         match it.splitOn ":" with
+         | [i, u, f, m, r] => do
+             let id ← i.toNat?; let un ← u.toNat?
+             let fill ← if f == "-" then some none else f.toNat?.map some
+             let mat ← unhex m; let rho ← unhex r
+             pure ({ id := id, univ := un, fill := fill, mat := mat, rho := rho } : FCell)
+         | _ => none
+       if cells.length != items.length then "err bad-item" else
+       let tops := cells.filter fun c => c.univ == 0 && c.fill.isSome
+       match tops.mapM (fillCells cells (cells.length + 2)) with
+       | none => "ok none"
+       | some lss => "ok " ++ " ".intercalate (lss.flatten.map fun l =>
+           s!"{l.base};" ++ ",".intercalate (l.origin.map fun (a, b) => s!"{a}-{b}") ++ s!";{hex l.mat};{hex l.rho}"))
   | "volline" :: fict :: op :: rest =>
       -- volline <0|1> <op|-> p.. / m.. / ids..    ->  VolumeT4.__str__
       (let groups := (" ".intercalate rest).splitOn "/"
